@@ -7,6 +7,7 @@ mod common;
 mod stylefmt;
 mod treegen;
 mod c02;
+mod pairs;
 mod c07;
 mod c19;
 mod c11;
@@ -77,6 +78,10 @@ fn main() {
     let mut out = Out::new(&out_dir);
     let extra = match prop.as_str() {
         "C02" => c02::run(&cfg, &mut out),
+        "C04" => pairs::run_c04(&cfg, &mut out),
+        "C05" => pairs::run_c05(&cfg, &mut out),
+        "C06" => pairs::run_c06(&cfg, &mut out),
+        "C12" => pairs::run_c12(&cfg, &mut out),
         "C07" => c07::run(&cfg, &mut out),
         "C19" => c19::run(&cfg, &mut out),
         "C11" => c11::run(&cfg, &mut out),
